@@ -35,24 +35,44 @@ func verifC09_timed() {
 		}
 		return f
 	}
-	peer := vChoose("peer", 3)
-	vClassify("peer", []string{"echo-after-d2", "write-held-d1-then-echo", "write-held-d1-echo-after-d2"}[peer])
-	state := vChoose("state", 3)
-	vClassify("state", []string{"idle", "reader-blocked", "closeread-active"}[state])
+	peer := vChoose("peer", 5)
+	vClassify("peer", []string{"echo-after-d2", "write-held-d1-then-echo", "write-held-d1-echo-after-d2", "data-frames-every-d2-never-a-close", "never-reads"}[peer])
+	state := vChoose("state", 4)
+	vClassify("state", []string{"idle", "reader-blocked", "closeread-active", "second-writer-queued-with-a-short-deadline"}[state])
 	var d1, d2 time.Duration
-	if peer != 0 {
+	if peer == 1 || peer == 2 {
 		d1 = vDelay("d1", 12*time.Second)
 	}
-	if peer != 1 {
+	if peer == 0 || peer == 2 {
 		d2 = vDelay("d2", 12*time.Second)
 	}
 	echo := vEncodeFrame(mk(vFrame{fin: true, opcode: 8, payload: []byte{0x03, 0xe8}}))
+	const nFlood = 4
+	var floodGates []chan struct{}
+	if peer == 3 {
+		// the peer never closes: it keeps sending data frames, one every d2 (any spacing up to 4 s)
+		d2 = vDelay("d2", 4*time.Second)
+		vAssume(d2 > 0)
+		echo = nil
+		for i := 0; i < nFlood; i++ {
+			echo = append(echo, vEncodeFrame(mk(vFrame{fin: true, opcode: 2, payload: vBytes("flood", 1)}))...)
+		}
+	}
 	t := vNewTransport(echo)
 	t.endMode = vEndBlock
 	gate := t.vTimedGate(0)
+	if peer == 3 {
+		per := len(echo) / nFlood
+		for i := 1; i < nFlood; i++ {
+			floodGates = append(floodGates, t.vTimedGate(i*per))
+		}
+	}
 	wrote := t.vNotifyAt(1)
-	if peer != 0 {
+	if peer == 1 || peer == 2 {
 		t.holdAt = 1
+	}
+	if peer == 4 {
+		t.writeBlock = true
 	}
 	c := vNewConn(t, client, nil, 32, 64)
 	blocked := make(chan error, 1)
@@ -68,6 +88,15 @@ func verifC09_timed() {
 	case 2:
 		c.CloseRead(vBG)
 		vGhostSettle()
+	case 3:
+		// another goroutine writes with a deadline of its own; it queues behind the Close frame's write and gives up
+		nBlocked++
+		go func() {
+			time.Sleep(10 * time.Millisecond)
+			ctx, cancel := context.WithTimeout(vBG, time.Second)
+			defer cancel()
+			blocked <- c.Write(ctx, MessageBinary, []byte("w"))
+		}()
 	}
 	// the peer
 	go func() {
@@ -85,7 +114,11 @@ func verifC09_timed() {
 		if d2 > 0 {
 			time.Sleep(d2)
 		}
-		t.vOpenGate(gate) // the peer's Close frame arrives
+		t.vOpenGate(gate) // the peer's Close frame (or its first data frame) arrives
+		for _, g := range floodGates {
+			time.Sleep(d2)
+			t.vOpenGate(g)
+		}
 	}()
 	start := vGhostElapsed()
 	err := c.Close(StatusNormalClosure, "")
@@ -93,7 +126,18 @@ func verifC09_timed() {
 	vReach("C09.timed.returned")
 	lim := 5 * time.Second
 	vAssert(took <= 2*lim+vSlack(), "C09.timed.within-documented-bound")
-	inTime := vAnd(d1 < lim, d2 < lim)
+	inTime := vAnd(vAnd(d1 < lim, d2 < lim), peer <= 2)
+	if peer == 3 {
+		vReach("C09.timed.flood")
+	}
+	if state == 3 && peer != 4 {
+		// the second writer is not asserted to fail when the peer does read
+		nBlocked--
+		select {
+		case <-blocked:
+		case <-time.After(2 * time.Second):
+		}
+	}
 	if inTime {
 		vReach("C09.timed.peer-in-time")
 		vAssert(err == nil, "C09.timed.nil-when-peer-answers-in-time")
@@ -105,7 +149,7 @@ func verifC09_timed() {
 		// normal end, and the property only bounds the time)
 		vAssert(took <= lim+vSlack(), "C09.timed.gives-up-writing-after-5s")
 	}
-	if vAnd(d1 < lim, d2 > lim) {
+	if vAnd(vAnd(d1 < lim, d2 > lim), peer <= 2) {
 		vReach("C09.timed.wait-timeout")
 		vAssert(took <= d1+lim+vSlack(), "C09.timed.gives-up-waiting-after-5s")
 	}
@@ -113,7 +157,7 @@ func verifC09_timed() {
 		select {
 		case e := <-blocked:
 			vAssert(e != nil, "C09.timed.blocked-call-error")
-		case <-time.After(time.Second):
+		case <-time.After(2 * time.Second):
 			vAssert(false, "C09.timed.blocked-call-returns")
 		}
 	}
@@ -366,4 +410,108 @@ func vChoose0(b bool) int {
 		return 1
 	}
 	return 0
+}
+
+// C10.queued: a write A is blocked on a peer that does not read; a second call B (Write or Ping) with a context of its
+// own queues behind it. A context bounds only its own call: when A's context is cancelled, A returns at once (and the
+// connection is closed) although B's context is still alive - and the other way round, the end of B's context while it
+// merely queues does not disturb A.
+func verifC10_queued() {
+	client := vParam("client", 1) == 1
+	vInstallRand()
+	t := vNewTransport(nil)
+	t.endMode = vEndBlock
+	t.writeBlock = true
+	c := vNewConn(t, client, nil, 32, 64)
+	ctxA, cancelA := context.WithCancel(vBG)
+	errA := make(chan error, 1)
+	go func() { errA <- c.Write(ctxA, MessageBinary, vBytes("a", 2)) }()
+	vGhostSettle()
+	which := vChoose("second", 2)
+	first := vChoose("cancelled-first", 2)
+	vClassify("second", []string{"write", "ping"}[which])
+	vClassify("cancelled", []string{"the-blocked-writer", "the-queued-call"}[first])
+	ctxB, cancelB := context.WithCancel(vBG)
+	errB := make(chan error, 1)
+	go func() {
+		if which == 0 {
+			errB <- c.Write(ctxB, MessageText, []byte("b"))
+		} else {
+			errB <- c.Ping(ctxB)
+		}
+	}()
+	vGhostSettle()
+	start := vGhostElapsed()
+	if first == 0 {
+		cancelA()
+		select {
+		case e := <-errA:
+			vAssert(e != nil, "C10.queued.blocked-writer-fails")
+		case <-time.After(3 * time.Second):
+			vAssert(false, "C10.cancel.blocked-writer-returns-when-its-context-ends")
+		}
+		vAssert(vGhostElapsed()-start < time.Second+vSlack(), "C10.cancel.prompt")
+		vGhostSettle()
+		vAssert(vNot(vIsOpen(c)), "C10.cancel.closed")
+	} else {
+		cancelB()
+		select {
+		case e := <-errB:
+			vAssert(e != nil, "C10.queued.queued-call-fails")
+		case <-time.After(3 * time.Second):
+			vAssert(false, "C10.cancel.queued-call-returns-when-its-context-ends")
+		}
+		// A is still blocked, and still bounded by its own context
+		cancelA()
+		select {
+		case e := <-errA:
+			vAssert(e != nil, "C10.queued.blocked-writer-fails")
+		case <-time.After(3 * time.Second):
+			vAssert(false, "C10.cancel.blocked-writer-returns-when-its-context-ends")
+		}
+	}
+	vReach("C10.queued.done")
+	cancelA()
+	cancelB()
+	c.CloseNow()
+	vObserve("c10queued", which, first)
+}
+
+// C10.bfinal: a compressed message whose DEFLATE stream ends with a final block, with payload left over behind it (the
+// RFC 7692 trailing octet in a final frame of its own, or padding), is read completely with its own context; cancelling
+// that context afterwards is harmless and the next message is read with a fresh one.
+func verifC10_bfinal() {
+	client := vParam("client", 1) == 1
+	vInstallRand()
+	data := vBytes("data", 2)
+	stored := vStored(data, []int{2}, true)
+	shape := vChoose("shape", 3)
+	vClassify("shape", []string{"trailing-octet-in-own-final-frame", "trailing-octet-same-frame", "padding-behind-the-stream"}[shape])
+	var frames []vFrame
+	switch shape {
+	case 0:
+		frames = vDataFrames(append(append([]byte{}, stored...), 0x00), []int{len(stored)}, 2, true, client)
+	case 1:
+		frames = vDataFrames(append(append([]byte{}, stored...), 0x00), nil, 2, true, client)
+	default:
+		pad := make([]byte, 70)
+		frames = vDataFrames(append(append([]byte{}, stored...), pad...), nil, 2, true, client)
+	}
+	next := vBytes("next", 1)
+	frames = append(frames, vDataFrames(next, nil, 1, false, client)...)
+	t := vNewTransport(vEncodeFrames(frames))
+	t.endMode = vEndBlock
+	c := vNewConn(t, client, vCopts(1+vChoose("mode", 2)), 64, 64)
+	ctx, cancel := context.WithCancel(vBG)
+	_, b, err := c.Read(ctx)
+	vReach("C10.bfinal.read")
+	vAssert(vAnd(err == nil, vEqBytes(b, data)), "C10.bfinal.first-read-ok")
+	cancel()
+	vGhostSettle()
+	time.Sleep(time.Second)
+	vAssert(vIsOpen(c), "C10.harmless.still-open-after-cancel")
+	_, b2, err2 := c.Read(vBG)
+	vAssert(vAnd(err2 == nil, vEqBytes(b2, next)), "C10.harmless.next-read-works")
+	c.CloseNow()
+	vObserve("c10bfinal", shape, err == nil, err2 == nil)
 }
